@@ -52,6 +52,7 @@ inductive Frame
   | authRetry           -- an authentication attempt answered without completing authentication
   | reply               -- the answer to a request
   | ping (n : Nat)
+  | pushed              -- a frame the server sends on its own account (MESSAGE, EVENT, MOD_DIRECT routed to this connection)
   | error (r : Reason)  -- always followed by the close
   | eof
 deriving Repr, DecidableEq
@@ -95,6 +96,7 @@ inductive Ev
   | pong (n : Nat)
   | shutdown
   | peerClose
+  | deliver             -- something is routed to this connection (traffic *to* the peer is not activity *of* the peer)
 deriving Repr, DecidableEq
 
 def init (cfg : Cfg) (t0 : Nat) : St :=
@@ -188,6 +190,11 @@ def step (s : St) (e : Ev) : St :=
     | _ => closeWith s .unexpected
   | .shutdown => closeWith s .shuttingDown
   | .peerClose => { s with closed := true, task := .idle }
+  | .deliver =>
+    -- only an authenticated connection is registered with the router; the keep-alive state is untouched
+    match s.phase with
+    | .authed _ => { s with out := s.out ++ [(s.now, .pushed)] }
+    | _ => s
 
 def run (s : St) (evs : List Ev) : St := evs.foldl step s
 
